@@ -136,7 +136,7 @@ def check_invocations(obs, ro, ref, prog, lazy_guard=None):
     first = {}
     for r in obs.trace:
         if r['k'] == 'body_start' and r['run'] == run:
-            key = (r['node'], kkey(r['kwargs']))
+            key = (r['node'], kkey(rt.cmp_kwargs(prog['nodes'][r['node']], r['kwargs'])))
             counts[key] = counts.get(key, 0) + 1
             first.setdefault(key, r)
     exp_nodes = {}
@@ -262,7 +262,9 @@ def check_defaults(obs, ro, ref):
     """get_default called with the same kwargs as the failing invocation (C12) / last dest kwargs (C11)."""
     out = []
     run = ro.tag
-    got = [(r['node'], kkey(r['kwargs'])) for r in obs.trace if r['k'] == 'default_call' and r['run'] == run]
+    nodes = obs.session.nodes
+    got = [(r['node'], kkey(rt.cmp_kwargs(nodes[r['node']], r['kwargs']))) for r in obs.trace
+           if r['k'] == 'default_call' and r['run'] == run]
     exp = [(n, kkey(kw)) for n, kw in ref.defaults]
     expset = set(exp)
     for g in got:
